@@ -12,6 +12,7 @@ use thiserror::Error;
 
 pub mod model;
 pub mod rngs;
+pub mod slowstore;
 pub mod wrapmath;
 
 // ---------------------------------------------------------------------------------------------
